@@ -132,6 +132,8 @@ func (p *Program) Taskfile() string {
 		switch t.guard() {
 		case "platform":
 			b.WriteString("    platforms: [windows/arm]\n")
+		case "platreq":
+			b.WriteString("    platforms: [windows/arm]\n    requires: {vars: [REQ]}\n")
 		case "requires":
 			b.WriteString("    requires: {vars: [REQ]}\n")
 		case "enum":
